@@ -52,6 +52,8 @@ type raceWorld struct {
 
 var rw *raceWorld
 
+var raceSeen = map[string]bool{}
+
 func raceSetup(sc raceScenario) {
 	runNo++
 	root := filepath.Join(scratch, fmt.Sprintf("r%d", runNo))
@@ -147,6 +149,15 @@ func raceFinish(rep *vevid.Report, sc raceScenario, x *vsched.Result) {
 	w.n.close()
 	closed = true
 	rep.Outcome(fmt.Sprintf("ack=%d stored=%d", liveAck, liveStored))
+	// the verdict of a crash image depends on the image (and on how many entries were appended) only: recover
+	// each distinct image once per scenario (the oracle is a function of the recovered node)
+	ikey := fmt.Sprintf("%s|%s|%d", sc.Name, img.Hash(), w.appended)
+	if raceSeen[ikey] {
+		rep.Count("race_images_seen_before", 1)
+		return
+	}
+	raceSeen[ikey] = true
+	rep.Count("race_images_recovered", 1)
 	croot := filepath.Join(scratch, "crash")
 	_ = os.RemoveAll(croot)
 	defer os.RemoveAll(croot)
@@ -213,11 +224,12 @@ func runRacePart(rep *vevid.Report, f *vevid.Flags) {
 		bound = 3
 	}
 	rep.Bounds["preemption_bound"] = bound
-	rep.Rule = fmt.Sprintf("%d scenarios (quick: the first 2): local replicator steps (1-2 pending entries of an already durable series) racing with 1-2 DataFamily.Flush calls on a real node; every schedule with <=%d preemptions at the lock/atomic operations of tsdb/data_family.go; after each schedule the node directory is taken as crash image, recovered, replayed, queried: every entry exactly once, WAL ack <= stored sequence. distinct = (scenario, schedule)", len(raceScenarios), bound)
+	rep.Rule = fmt.Sprintf("%d scenarios: local replicator steps (1-2 pending entries of an already durable series) racing with 1-2 DataFamily.Flush calls on a real node; every schedule with <=%d preemptions at the lock/atomic operations of tsdb/data_family.go; after each schedule the node directory is taken as crash image, recovered, replayed, queried: every entry exactly once, WAL ack <= stored sequence. distinct = (scenario, schedule)", len(raceScenarios), bound)
 	if f.Replay != "" {
 		var r raceReplay
 		vevid.LoadReplay(f.Replay, &r)
 		for i := 0; i < 3; i++ {
+			raceSeen = map[string]bool{}
 			x := vsched.Run(r.Choices, 2000000, raceBody(r.Scenario))
 			raceFinish(rep, r.Scenario, x)
 		}
@@ -225,10 +237,7 @@ func runRacePart(rep *vevid.Report, f *vevid.Flags) {
 		rep.Write()
 		return
 	}
-	scs := raceScenarios[:2]
-	if f.Thorough() {
-		scs = raceScenarios
-	}
+	scs := raceScenarios
 	for _, sc := range scs {
 		sc := sc
 		e := &vsched.Explorer{Bound: bound, Horizon: 2000000, Body: raceBody(sc), Shard: f.Shard, Shards: f.Shards, Deadline: f.Deadline}
